@@ -53,7 +53,7 @@ type c19Req struct {
 
 type c19Env struct {
 	r     *Run
-	line  string
+	ops   *[]string
 	msz   uint64
 	salt  uint64
 	pmc   [2]*pmcpkg.PageMigrationController
@@ -86,8 +86,10 @@ func c19InitByte(salt uint64, i int, x uint64) byte {
 	return byte(((x*2654435761 + salt*40503 + uint64(i)*97 + (x/64)*131) / 8) % 256)
 }
 
-func newC19Env(r *Run, line string, msz, salt uint64) *c19Env {
-	e := &c19Env{r: r, line: line, msz: msz, salt: salt, ids: newIDMap(),
+func (e *c19Env) ln() string { return strings.Join(*e.ops, " ; ") }
+
+func newC19Env(r *Run, msz, salt uint64) *c19Env {
+	e := &c19Env{r: r, msz: msz, salt: salt, ids: newIDMap(),
 		pullOwner: map[string]*c19Req{}, pullAddr: map[string]uint64{}, pullAt: map[string]int{},
 		readData: map[string][]byte{}, readSeen: map[string]int{}, rspSeen: map[string]int{}}
 	eng := &fakeEngine{}
@@ -429,7 +431,7 @@ func (e *c19Env) afterTick(p int) {
 			e.r.Checked("complete.contents")
 			got, _ := e.st[p].Read(q.wr, q.size)
 			if string(got) != string(q.src) {
-				e.r.Failf("C19.complete.early", e.line, "completion of request %d (PMC %d, %d bytes %x<-%x) is in the control port but the destination page differs from the source page (first difference at byte %d)",
+				e.r.Failf("C19.complete.early", e.ln(), "completion of request %d (PMC %d, %d bytes %x<-%x) is in the control port but the destination page differs from the source page (first difference at byte %d)",
 					id, p, q.size, q.wr, q.rd, c19FirstDiff(got, q.src))
 			}
 		}
@@ -454,7 +456,7 @@ func (e *c19Env) onNetPick(p int, m sim.Msg) {
 		e.r.Checked("pull.request")
 		q := e.current(p)
 		if q == nil {
-			e.r.Failf("C19.pull.orphan", e.line, "PMC %d sent a pull request (addr %x) while it has no migration request", p, x.ToReadFromPhyAddress)
+			e.r.Failf("C19.pull.orphan", e.ln(), "PMC %d sent a pull request (addr %x) while it has no migration request", p, x.ToReadFromPhyAddress)
 			return
 		}
 		e.pullOwner[x.ID] = q
@@ -463,7 +465,7 @@ func (e *c19Env) onNetPick(p int, m sim.Msg) {
 		off := x.ToReadFromPhyAddress - q.rd
 		if x.ToReadFromPhyAddress < q.rd || off >= q.size || off%64 != 0 || x.DataTransferSize != 64 ||
 			x.Dst != e.rem[q.peer].AsRemote() || q.pulls[x.ToReadFromPhyAddress] > 1 {
-			e.r.Failf("C19.pull.wrong", e.line, "request %d (rd %x size %d peer %d): pull request addr %x size %d to %s (times seen %d)",
+			e.r.Failf("C19.pull.wrong", e.ln(), "request %d (rd %x size %d peer %d): pull request addr %x size %d to %s (times seen %d)",
 				q.id, q.rd, q.size, q.peer, x.ToReadFromPhyAddress, x.DataTransferSize, x.Dst, q.pulls[x.ToReadFromPhyAddress])
 		}
 	case *pmcpkg.DataPullRsp:
@@ -472,7 +474,7 @@ func (e *c19Env) onNetPick(p int, m sim.Msg) {
 		q := e.pullOwner[x.ID]
 		want, have := e.readData[x.ID]
 		if q == nil || !have || e.rspSeen[x.ID] > 1 || string(want) != string(x.Data) || x.Dst != e.rem[q.p].AsRemote() || e.pullAt[x.ID] != p {
-			e.r.Failf("C19.rsp.wrong", e.line, "PMC %d sent a pull response (id #%d, %d bytes, to %s, times %d) that is not the data its memory returned for that pull request",
+			e.r.Failf("C19.rsp.wrong", e.ln(), "PMC %d sent a pull response (id #%d, %d bytes, to %s, times %d) that is not the data its memory returned for that pull request",
 				p, e.ids.get(x.ID)-1, len(x.Data), x.Dst, e.rspSeen[x.ID])
 		}
 	}
@@ -488,30 +490,30 @@ func (e *c19Env) onMemTake(p int, m sim.Msg) {
 		e.readSeen[x.ID]++
 		a, known := e.pullAddr[x.ID]
 		if !known || e.pullAt[x.ID] != p || a != x.Address || x.AccessByteSize != 64 || e.readSeen[x.ID] > 1 {
-			e.r.Failf("C19.read.wrong", e.line, "PMC %d read %d bytes at %x (id #%d, times %d): not the chunk a delivered pull request asked for",
+			e.r.Failf("C19.read.wrong", e.ln(), "PMC %d read %d bytes at %x (id #%d, times %d): not the chunk a delivered pull request asked for",
 				p, x.AccessByteSize, x.Address, e.ids.get(x.ID)-1, e.readSeen[x.ID])
 		}
 	case *mem.WriteReq:
 		e.r.Checked("mem.write")
 		q := e.current(p)
 		if q == nil {
-			e.r.Failf("C19.write.orphan", e.line, "PMC %d wrote at %x while it has no migration request", p, x.Address)
+			e.r.Failf("C19.write.orphan", e.ln(), "PMC %d wrote at %x while it has no migration request", p, x.Address)
 			return
 		}
 		q.writes[x.Address]++
 		off := x.Address - q.wr
 		ok := x.Address >= q.wr && off < q.size && off%64 == 0 && len(x.Data) == 64 && q.writes[x.Address] == 1 && x.DirtyMask == nil
 		if ok && string(x.Data) != string(q.src[off:off+64]) {
-			e.r.Failf("C19.write.data", e.line, "request %d: chunk %d written at %x does not hold the source chunk at %x", q.id, off/64, x.Address, q.rd+off)
+			e.r.Failf("C19.write.data", e.ln(), "request %d: chunk %d written at %x does not hold the source chunk at %x", q.id, off/64, x.Address, q.rd+off)
 		} else if !ok {
-			e.r.Failf("C19.write.wrong", e.line, "request %d (wr %x size %d): write of %d bytes at %x (times %d)", q.id, q.wr, q.size, len(x.Data), x.Address, q.writes[x.Address])
+			e.r.Failf("C19.write.wrong", e.ln(), "request %d (wr %x size %d): write of %d bytes at %x (times %d)", q.id, q.wr, q.size, len(x.Data), x.Address, q.writes[x.Address])
 		}
 	}
 }
 
 func (e *c19Env) onCollect(p, id int, m sim.Msg) {
 	if id < 0 || id >= len(e.reqs) {
-		e.r.Failf("C19.complete.unknown", e.line, "PMC %d sent a completion to %s", p, m.Meta().Dst)
+		e.r.Failf("C19.complete.unknown", e.ln(), "PMC %d sent a completion to %s", p, m.Meta().Dst)
 		return
 	}
 	q := e.reqs[id]
@@ -519,10 +521,10 @@ func (e *c19Env) onCollect(p, id int, m sim.Msg) {
 	q.collected = true
 	e.r.Checked("complete.once")
 	if q.completions > 1 {
-		e.r.Failf("C19.complete.twice", e.line, "request %d completed %d times", id, q.completions)
+		e.r.Failf("C19.complete.twice", e.ln(), "request %d completed %d times", id, q.completions)
 	}
 	if q.p != p || !q.delivered {
-		e.r.Failf("C19.complete.unknown", e.line, "PMC %d completed request %d which it never received", p, id)
+		e.r.Failf("C19.complete.unknown", e.ln(), "PMC %d completed request %d which it never received", p, id)
 	}
 	if e.malformed || !q.valid {
 		return
@@ -530,7 +532,7 @@ func (e *c19Env) onCollect(p, id int, m sim.Msg) {
 	// FIFO: every older request of this PMC is complete
 	for _, o := range e.reqs {
 		if o.p == p && o.id < id && o.completions == 0 {
-			e.r.Failf("C19.complete.order", e.line, "request %d completed before the older request %d of the same PMC", id, o.id)
+			e.r.Failf("C19.complete.order", e.ln(), "request %d completed before the older request %d of the same PMC", id, o.id)
 		}
 	}
 	n := int(q.size / 64)
@@ -543,7 +545,7 @@ func (e *c19Env) onCollect(p, id int, m sim.Msg) {
 	}
 	e.r.Checked("complete.counts")
 	if np != n || nw != n || len(q.pulls) != n || len(q.writes) != n {
-		e.r.Failf("C19.complete.counts", e.line, "request %d of %d chunks completed after %d pull requests (%d distinct) and %d writes (%d distinct)", id, n, np, len(q.pulls), nw, len(q.writes))
+		e.r.Failf("C19.complete.counts", e.ln(), "request %d of %d chunks completed after %d pull requests (%d distinct) and %d writes (%d distinct)", id, n, np, len(q.pulls), nw, len(q.writes))
 	}
 }
 
@@ -561,7 +563,7 @@ func (e *c19Env) finish(closed bool, kind string) {
 		return strings.Join(s, ",")
 	}
 	e.out = append(e.out, fmt.Sprintf("M0=%x", h[0]), fmt.Sprintf("M1=%x", h[1]), "G0="+gs(e.got[0]), "G1="+gs(e.got[1]))
-	e.r.Case(e.line, strings.Join(e.out, " "))
+	e.r.Case(e.ln(), strings.Join(e.out, " "))
 	e.r.Count("mig.scenario." + kind)
 	e.r.CountN("mig.ops", len(e.out)-4)
 	e.r.CountN("mig.ticks", e.nticks)
@@ -572,7 +574,7 @@ func (e *c19Env) finish(closed bool, kind string) {
 	if e.fault != "" {
 		e.r.Count("mig.fault." + e.fault)
 		if !e.malformed {
-			e.r.Failf("C19.fault."+e.fault, e.line, "the controller panicked (%s) in a scenario with only well-formed requests and honest memories", e.fault)
+			e.r.Failf("C19.fault."+e.fault, e.ln(), "the controller panicked (%s) in a scenario with only well-formed requests and honest memories", e.fault)
 		}
 		return
 	}
@@ -586,13 +588,13 @@ func (e *c19Env) finish(closed bool, kind string) {
 		e.r.Checked("closed.complete")
 		for _, q := range e.reqs {
 			if q.completions != 1 {
-				e.r.Failf("C19.loss.request", e.line, "request %d (PMC %d, %d bytes) completed %d times after the closing rounds (delivered=%v started=%v)", q.id, q.p, q.size, q.completions, q.delivered, q.started)
+				e.r.Failf("C19.loss.request", e.ln(), "request %d (PMC %d, %d bytes) completed %d times after the closing rounds (delivered=%v started=%v)", q.id, q.p, q.size, q.completions, q.delivered, q.started)
 			}
 		}
 		for i := 0; i < 2; i++ {
 			s := e.pmc[i].VerifStateC19()
 			if s.Handling || s.HasCurrent || s.Pending != -1 || s.MapSize != 0 || s.ToPull+s.CurPull+s.ToRead+s.DataReady+s.ToRsp+s.RecvData+s.WriteReqs != 0 {
-				e.r.Failf("C19.loss.not-idle", e.line, "PMC %d is not idle after the closing rounds: %s", i, e.sig(i))
+				e.r.Failf("C19.loss.not-idle", e.ln(), "PMC %d is not idle after the closing rounds: %s", i, e.sig(i))
 			}
 		}
 	}
@@ -612,9 +614,9 @@ func (e *c19Env) finish(closed bool, kind string) {
 			init := c19InitByte(e.salt, i, uint64(x))
 			switch {
 			case cover == 0 && b[x] != init:
-				e.r.Failf("C19.contents.frame", e.line, "memory %d byte %x is outside every destination page but changed from %02x to %02x", i, x, init, b[x])
+				e.r.Failf("C19.contents.frame", e.ln(), "memory %d byte %x is outside every destination page but changed from %02x to %02x", i, x, init, b[x])
 			case cover > 0 && (closed || open == 0) && b[x] != e.exp[i][x]:
-				e.r.Failf("C19.contents.page", e.line, "memory %d byte %x (inside a migrated page) is %02x, source page has %02x", i, x, b[x], e.exp[i][x])
+				e.r.Failf("C19.contents.page", e.ln(), "memory %d byte %x (inside a migrated page) is %02x, source page has %02x", i, x, b[x], e.exp[i][x])
 			default:
 				continue
 			}
@@ -754,7 +756,11 @@ func (g *c19Gen) next(e *c19Env) string {
 			g.idle++
 		}
 		g.phase++
-		if g.phase > 60+40*len(e.reqs)*64 {
+		chunks := 0
+		for _, q := range e.reqs {
+			chunks += int(q.size/64) + 1
+		}
+		if g.phase > 80+30*chunks {
 			return ""
 		}
 		for _, p := range rng.Perm(2) {
@@ -784,18 +790,17 @@ func c19Cfg(line string) (msz, salt uint64) {
 // run a scenario whose ops come from `next` (adaptive generator) and record it
 func runC19Mig(r *Run, head string, next func(e *c19Env) string, closed bool, kind string) {
 	msz, salt := c19Cfg(head)
-	e := newC19Env(r, "", msz, salt)
+	e := newC19Env(r, msz, salt)
 	ops := []string{head}
+	e.ops = &ops
 	for e.fault == "" {
 		o := next(e)
 		if o == "" {
 			break
 		}
 		ops = append(ops, o)
-		e.line = strings.Join(ops, " ; ")
 		e.op(strings.Fields(o))
 	}
-	e.line = strings.Join(ops, " ; ")
 	e.finish(closed && e.fault == "", kind)
 }
 
@@ -988,8 +993,13 @@ func runC19Prep(r *Run, line string, kind string) {
 			_, freeAfter := c.freeSig()
 			key := [2]uint64{pid, va}
 			now, ok := after[key]
-			lo, sz := c.drv.VerifRangeC19(int(gpu) + 1)
+			var lo, sz uint64
+			if int(gpu)+1 < c.ndev {
+				lo, sz = c.drv.VerifRangeC19(int(gpu) + 1)
+			}
 			switch {
+			case int(gpu)+1 >= c.ndev:
+				r.Failf("C19.mapping.entry", line, "pid %d page %x was re-homed although GPU %d does not exist (%d devices)", pid, va, gpu, c.ndev)
 			case !ok:
 				r.Failf("C19.mapping.lost", line, "after preparing pid %d page %x for GPU %d the table has no entry for it", pid, va, gpu)
 			case now.DeviceID != gpu+1 || !now.IsMigrating || !now.Valid || now.PAddr < lo || now.PAddr >= lo+sz || now.PAddr%4096 != 0 || now.PageSize != 4096:
@@ -1012,12 +1022,15 @@ func runC19Prep(r *Run, line string, kind string) {
 				r.Failf("C19.mapping.alias", line, "the page was re-homed onto its own old physical page %x", now.PAddr)
 			}
 			for d := range freeBefore {
+				if int(gpu)+1 >= c.ndev {
+					break
+				}
 				fb, fa := freeBefore[d], freeAfter[d]
 				if d == int(gpu)+1 {
-					if len(fa) != len(fb)-1 || len(fb) == 0 || fb[0] != now.PAddr || (len(fa) > 0 && fa[0] != fb[1]) {
+					if len(fa) != len(fb)-1 || len(fb) == 0 || fb[0] != now.PAddr || (len(fa) > 0 && len(fb) > 1 && fa[0] != fb[1]) {
 						r.Failf("C19.mapping.freelist", line, "free list of the destination device %d: %d -> %d entries, page taken %x", d, len(fb), len(fa), now.PAddr)
 					}
-				} else if len(fa) != len(fb) || (len(fa) > 0 && fa[0] != fb[0]) {
+				} else if len(fa) != len(fb) || (len(fa) > 0 && len(fb) > 0 && fa[0] != fb[0]) {
 					r.Failf("C19.mapping.freelist", line, "free list of device %d changed (%d -> %d)", d, len(fb), len(fa))
 				}
 				for _, x := range fa {
